@@ -12,14 +12,26 @@ generated too (read-fonts/generated/*.rs, named by the `FromObjRef<read_fonts::t
 
 in the field DSL of lean/FontVerif/Model/Field.lean and emit
 
-  <out>/WriteProgs.lean   per pair: `<m>_<T>_w`, `<m>_<T>_r`, `<m>_<T>_names`, `theorem <m>_<T>_compat : compat .. = true := by decide`
+  <out>/WriteProgs.lean   per pair: `<m>_<T>_w`, `<m>_<T>_r`, `<m>_<T>_assumes`,
+                          `theorem <m>_<T>_compat : compat .. = true := by decide +kernel` (or `_compat_under : compatU ..`),
+                          per format enum: `<m>_<E>_variants`, `theorem <m>_<E>_dispatch : enumCompat hw .. = true`,
                           and the registry `allPairs` for the driver
+  <out>/WriteProgsLink.lean  per table pair with a C01 shape: `agrees customNames <shape> <m>_<T>_r = true`
 
 Every statement / field is consumed by an anchored regular expression for one of the rigid codegen forms; a type
 with any statement or field outside those forms is *not covered*: it is listed in the report with the reason
 (`not_covered`), counted, and shown in the evidence (the harness reads the report).  A type that is covered in
 the committed baseline `translate/writers_expected.json` but stops being covered is reported as `unparsed`
 (breaks the check): coverage can only shrink deliberately.
+
+Round 4 forms (see Model/Field.lean): readers with external arguments (`FontReadWithArgs`, `ReadArgs`: arguments are
+view entries `ARG_BASE + i`), records read with arguments, generated `ComputeSize` impls (element layouts as segments;
+the hand-written `ValueRecord` size is built in), `VarSize` / `VarLenArray` (hand-written `SegmentMaps`), count
+transforms and hand-written count functions (`NExpr`; `CUSTOM_FNS`), generic tables whose parameter only names an
+offset target (`LookupList<T>`), enum constants, `compile_*` fns without a cast, format enums (`match self` /
+`match format`).  Hand-written source that Model/Field.lean / this file transcribe is tied by token hash
+(`hand_hashes` in the baseline): a change is a regression until re-reviewed.  The report also carries `child_args`
+(generated getters that pass arguments to a child table) for the harness walk.
 
 usage: writers.py --repo /repo --out lean/FontVerif/Gen --report out.json [--write-baseline]
 """
